@@ -212,14 +212,22 @@ func runC20(c *Ctx) {
 			continue
 		}
 		g := c.G(f)
+		// the output list: the variable returned as the first result on success
+		var idsObj types.Object
+		for _, ex := range g.Returns() {
+			if len(ex.Return.Results) == 2 && g.ReturnKind(ex) == core.RetSuccess {
+				if id, isID := ast.Unparen(ex.Return.Results[0]).(*ast.Ident); isID {
+					idsObj = info.Uses[id]
+				}
+			}
+		}
 		nApp := 0
 		for _, h := range g.Find(func(n ast.Node) bool {
 			as, ok := n.(*ast.AssignStmt)
 			if !ok || len(as.Lhs) != 1 || len(as.Rhs) != 1 {
 				return false
 			}
-			id, isID := as.Lhs[0].(*ast.Ident)
-			return isID && id.Name == "ids" && len(core.CallsTo(info, as.Rhs[0], false, "builtin.append")) == 1
+			return idsObj != nil && isIdentOf(info, as.Lhs[0], idsObj) && len(core.CallsTo(info, as.Rhs[0], false, "builtin.append")) == 1
 		}) {
 			nApp++
 			as := h.Node.(*ast.AssignStmt)
@@ -228,7 +236,7 @@ func runC20(c *Ctx) {
 			ok, why := true, ""
 			for _, a := range call.Args {
 				a = ast.Unparen(a)
-				if id, isID := a.(*ast.Ident); isID && id.Name == "ids" {
+				if isIdentOf(info, a, idsObj) {
 					continue
 				}
 				if cl, isCl := a.(*ast.CompositeLit); isCl { // []int32{vocab.BOS}
@@ -302,7 +310,7 @@ func runC20(c *Ctx) {
 			if len(core.CallsTo(info, rl.Stmt.X, false, "model.Vocabulary.SpecialVocabulary")) == 1 {
 				special = rl.Stmt
 			}
-			if p := core.PathOf(info, rl.Stmt.X); p.Valid() && p.Root.Name() == "fragments" && special != nil && rl.Stmt != special {
+			if p := core.PathOf(info, rl.Stmt.X); p.Valid() && len(p.Fields) == 0 && isSliceOf(p.Root.Type(), "model.fragment") && special != nil && rl.Stmt != special && !within(special, rl.Stmt) {
 				tokenise = rl.Stmt
 			}
 		}
@@ -337,8 +345,16 @@ func runC20(c *Ctx) {
 				return true
 			}
 			c0, c1, c2 := sw.Body.List[0].(*ast.CaseClause), sw.Body.List[1].(*ast.CaseClause), sw.Body.List[2].(*ast.CaseClause)
-			lt := len(c0.List) == 1 && strings.HasSuffix(core.ExprString(c0.List[0]), "< 0")
-			gt := len(c1.List) == 1 && strings.HasSuffix(core.ExprString(c1.List[0]), "> 0")
+			cmp0 := func(e ast.Expr, want token.Token) bool {
+				be, ok := ast.Unparen(e).(*ast.BinaryExpr)
+				if !ok {
+					return false
+				}
+				v, isC := core.ConstInt(info, be.Y)
+				return isC && v == 0 && be.Op == want
+			}
+			lt := len(c0.List) == 1 && cmp0(c0.List[0], token.LSS)
+			gt := len(c1.List) == 1 && cmp0(c1.List[0], token.GTR)
 			ft := false
 			if len(c1.Body) > 0 {
 				if b, isB := c1.Body[len(c1.Body)-1].(*ast.BranchStmt); isB && b.Tok == token.FALLTHROUGH {
@@ -353,9 +369,16 @@ func runC20(c *Ctx) {
 		okBy := false
 		if len(tokenise.Body.List) > 0 {
 			if is, ok := tokenise.Body.List[0].(*ast.IfStmt); ok {
-				s := core.ExprString(is.Cond)
-				if strings.Contains(s, "ids) > 0") && len(is.Body.List) == 2 {
-					if b, isB := is.Body.List[1].(*ast.BranchStmt); isB && b.Tok == token.CONTINUE {
+				hasIDs := false
+				if be, isB := ast.Unparen(is.Cond).(*ast.BinaryExpr); isB && be.Op == token.GTR {
+					if p, isLen := isLenOf(info, be.X); isLen && p.Last() != nil && p.Last().Name() == "ids" {
+						if v, isC := core.ConstInt(info, be.Y); isC && v == 0 {
+							hasIDs = true
+						}
+					}
+				}
+				if hasIDs && len(is.Body.List) >= 2 {
+					if b, isB := is.Body.List[len(is.Body.List)-1].(*ast.BranchStmt); isB && b.Tok == token.CONTINUE {
 						okBy = true
 					}
 				}
@@ -382,8 +405,30 @@ func runC20(c *Ctx) {
 		g := c.G(f)
 		okShape := false
 		for _, cb := range g.CondBlocks() {
-			s := core.ExprString(cb.Cond)
-			if strings.Contains(s, "== 6") && strings.Contains(s, `HasPrefix(data, "<0x")`) && strings.Contains(s, `HasSuffix(data, ">")`) {
+			// len(x) == 6 && HasPrefix(x, "<0x") && HasSuffix(x, ">") on one variable x
+			var lenV, preV, sufV types.Object
+			for _, a := range core.Atoms([]core.Fact{{Expr: cb.Cond, Val: true}}) {
+				if !a.Val {
+					continue
+				}
+				if be, isB := ast.Unparen(a.Expr).(*ast.BinaryExpr); isB && be.Op == token.EQL {
+					if p, isLen := isLenOf(info, be.X); isLen && len(p.Fields) == 0 {
+						if v, isC := core.ConstInt(info, be.Y); isC && v == 6 {
+							lenV = p.Root
+						}
+					}
+				}
+				if call, isC := ast.Unparen(a.Expr).(*ast.CallExpr); isC && len(call.Args) == 2 {
+					lit, _ := core.ConstString(info, call.Args[1])
+					switch {
+					case core.CalleeName(info, call) == "strings.HasPrefix" && lit == "<0x":
+						preV = core.PathOf(info, call.Args[0]).Root
+					case core.CalleeName(info, call) == "strings.HasSuffix" && lit == ">":
+						sufV = core.PathOf(info, call.Args[0]).Root
+					}
+				}
+			}
+			if lenV != nil && lenV == preV && lenV == sufV {
 				okShape = true
 			}
 		}
@@ -454,4 +499,9 @@ func guardedIDList(c *Ctx, f *core.Func, o types.Object, info *types.Info) bool 
 		n++
 	}
 	return n > 0
+}
+
+func isSliceOf(t types.Type, elem string) bool {
+	sl, ok := t.Underlying().(*types.Slice)
+	return ok && core.ObjNameOfType(sl.Elem()) == elem
 }
